@@ -420,6 +420,13 @@ func TestDrv_C07(t *testing.T) {
 		for i := range rs {
 			rs[i] = genResult(r, i, 70000)
 		}
+		if s%60 == 7 {
+			// response headers of more than a MiB in one result (twenty fields of 64 KiB: the client accepts up to 10 MiB)
+			rs[n/2].Headers = http.Header{}
+			for k := 0; k < 20; k++ {
+				rs[n/2].Headers[fmt.Sprintf("X-Big-%02d", k)] = []string{strings.Repeat(string(rune('a'+k)), 65536)}
+			}
+		}
 		if s%4 == 2 && n >= 3 {
 			// attacks that began at the same local time in different zones, merged into one stream: the same wall-clock reading
 			// in consecutive records, at offsets an hour (or 45 minutes) apart - different instants
@@ -812,7 +819,13 @@ func TestDrv_C08(t *testing.T) {
 				r.Read(rs[i].Body)
 			}
 		}
+		if s%10 == 3 {
+			rs[0] = vegeta.Result{} // a first record with nothing in it: every field at its zero value (the year-1 instant has no CSV form)
+		}
 		for _, c := range codecs {
+			if s%10 == 3 && c.name == "csv" {
+				continue
+			}
 			data, _ := encodeAll(c, rs)
 			for _, cs := range chunkSizes {
 				if cs == 1 && len(data) > 20000 {
@@ -1103,6 +1116,12 @@ func TestDrv_C13(t *testing.T) {
 				}
 				if s%5 == 2 && f == 0 && i == 0 {
 					padToCSVRecord(&res, []int{4097, 4196, 8192 + 37, 12288 + 2000}[s/5%4])
+				}
+				if s%50 == 12 && f == 0 && i == lens[f]-1 { // (file 0 is CSV here) a result with more than a MiB of response headers
+					res.Headers = http.Header{}
+					for k := 0; k < 20; k++ {
+						res.Headers[fmt.Sprintf("X-Big-%02d", k)] = []string{strings.Repeat(string(rune('a'+k)), 65536)}
+					}
 				}
 				files[f] = append(files[f], res)
 				union = append(union, res)
